@@ -10,6 +10,7 @@ import (
 
 	"github.com/TarsCloud/TarsGo/tars"
 	"github.com/TarsCloud/TarsGo/tars/registry"
+	"github.com/TarsCloud/TarsGo/tars/util/rtimer"
 
 	"verif/netlab"
 	"verif/rpcw"
@@ -181,4 +182,47 @@ func overlappingProbesScenario(id, probes, slowMs, gapMs int) {
 	run.Max("rotation_entries_after_overlapping_probes", int64(len(rotation)))
 	run.Eval(1)
 	run.Distinct(fmt.Sprintf("probes|%d|%d|%d", probes, slowMs/100, gapMs/50))
+}
+
+// timerHistoryScenario: the bound on the wait for room in a connection's send queue and the wait for
+// a reply on the receive path are timers of rtimer's wheels (one wheel per duration, created on first
+// use, kept for ever).  A call's deadline is only as good as these timers, whatever the wheel's
+// history: right after an expiry, after g idle ticks (g = 0..2.2 turns of the wheel), after several
+// idle turns.  Every timer asked for must fire; one that has not fired 10 s after its duration is
+// lost (the wall clock only separates "fired" from "never").
+func timerHistoryScenario(d time.Duration) {
+	tick := d / 20
+	lost := func(g int, what string) {
+		run.Violation("never-returned", "rtimer:timer-lost", fmt.Sprintf("rtimer.After(%v) asked for %s had not fired 10 s after its duration: a caller waiting behind a full send queue on this timer never returns", d, what),
+			map[string]interface{}{"duration_ms": d.Milliseconds(), "idle_ticks_before": g, "tick_ms": tick.Milliseconds()})
+		poisoned.Store(true)
+	}
+	fired := func(c <-chan struct{}) bool {
+		select {
+		case <-c:
+			return true
+		case <-time.After(d + 10*time.Second):
+			return false
+		}
+	}
+	if !fired(rtimer.After(d)) {
+		lost(0, "on a fresh wheel")
+		return
+	}
+	for g := 0; g <= 46; g++ {
+		time.Sleep(time.Duration(g) * tick)
+		t0 := time.Now()
+		// two waiters, the second half a tick later: neighbouring slots
+		c1 := rtimer.After(d)
+		time.Sleep(tick / 2)
+		c2 := rtimer.After(d)
+		if !fired(c1) || !fired(c2) {
+			lost(g, fmt.Sprintf("%d idle ticks after the previous expiry", g))
+			return
+		}
+		run.Max("timer_fire_latency_ms_max", time.Since(t0).Milliseconds())
+		run.Eval(1)
+		run.Distinct(fmt.Sprintf("timer|%dms|gap%d", d.Milliseconds(), g))
+		run.Add("timers_fired_after_idle_gap", 2)
+	}
 }
